@@ -156,6 +156,14 @@ def _split_by_commas(ctx):
                 # are quoted by quote(), fine
                 pass
             cases[','.join(quote(i) for i in items)] = ('return', items)
+    import string
+    for c in string.punctuation + string.digits + 'zZ':
+        if c in ',"':
+            continue
+        # every other printable character may appear in a bare item
+        cases['x%sy' % c] = ('return', ['x%sy' % c])
+        cases['%s,q' % c] = ('return', [c, 'q'])
+        cases['q,"a b",%s%s' % (c, c)] = ('return', ['q', 'a b', c + c])
     for bad in ('a,', ',a', 'a,,b', '"a', 'a"b', '"a"b', 'a b', '', ',',
                 '"a",', 'a,"b', '"a""b"', 'a,b"'):
         cases[bad] = ('raise', 'ValueError')
